@@ -454,6 +454,10 @@ def _ac_shapes(tier):
            dict(m=7, p=2, ncp=6, dim=2, centripetal=True, sym=[0, 6], table='lattice'),
            dict(m=7, p=3, ncp=5, dim=2, centripetal=True, sym=[0, 6], table='lattice'),
            dict(m=7, p=3, ncp=6, dim=3, centripetal=True, sym=[], table='lattice'),
+           # a single-span (Bezier) least-squares fit: number of control points = degree + 1, no interior knots
+           dict(m=5, p=2, ncp=3, dim=2, centripetal=False, sym=[0, 4], table='lattice'),
+           dict(m=6, p=3, ncp=4, dim=2, centripetal=False, sym=[2], table='lattice'),
+           dict(m=7, p=3, ncp=4, dim=3, centripetal=True, sym=[], table='lattice'),
            dict(m=6, p=2, ncp=4, dim=2, centripetal=False, sym=[], table='uniform'),
            dict(m=7, p=3, ncp=5, dim=3, centripetal=True, sym=[], table='uniform')]
     if tier == 'thorough':
